@@ -201,6 +201,7 @@ struct Judge {
     static const string img = "/sim/img";
     std::set<int> required, allowed; std::set<string> ul;
     sets(ic.spec.k, ic.kill, &required, &allowed, &ul);
+    sim::budget_reset();
     simfs::mount_image(R.journal, ic.spec, img);
     count("images");
     probe(ic.kill ? "crash:kill_image" : "crash:power_image");
@@ -388,7 +389,7 @@ Plan gen_crash(uint64_t seed, const string &prop) {
     else { o.kind = O_GET; char kb[48]; snprintf(kb, sizeof kb, "w%d/k%03d", o.tid, (int)r.below(nkeys)); o.key = kb; }
     p.ops.push_back(o);
   }
-  p.seti("max_boundaries", sizeclass < 4 ? 400 : 260);
+  p.seti("max_boundaries", g_thorough ? 1500 : sizeclass < 4 ? 400 : 260);
   return p;
 }
 
